@@ -45,7 +45,7 @@ CLAIMS = {
             "note": TRACE_NOTE},
     "C04": {"engine": "E1 sched-trace", "design_ref": "DESIGN.md 5/C04",
             "technique": "TLA+ trace validation: precedence predicate P04 over own + inherited + precedes edges taken from the generator, both directions",
-            "text": "P04 evaluated by TLC when each task's dates are reported, edges from the abstract project (not the parsed model), nested DAGs, gaps, on-start, dated containers, ASAP and ALAP",
+            "text": "P04 evaluated by TLC when each task's dates are reported, edges from the abstract project (not the parsed model), nested DAGs, gaps, on-start, dated containers, ASAP and ALAP; edges that name a container are edges to every leaf inside it, in both directions (Succs / FSuccs / GapTo); gap durations in days / weeks are calendar time; MC_Jit (thorough)",
             "note": TRACE_NOTE},
     "C05": {"engine": "E1 sched-trace", "design_ref": "DESIGN.md 5/C05",
             "technique": "TLA+ trace validation: booked seconds per calendar day / week from the observed ledger vs declared limits, DayOf/WeekOf integer arithmetic",
@@ -61,7 +61,7 @@ CLAIMS = {
             "note": TRACE_NOTE},
     "C08": {"engine": "E1 sched-trace", "design_ref": "DESIGN.md 5/C08",
             "technique": "TLA+ trace validation: no-idle predicates P08F/P08B at Finish, lead-in rule at Book, backward tasks end by the deadline the spec computes",
-            "text": "at Finish every on-shift slot between bound and end (deadline and end for ALAP) has no free tick; idle lead-in only in the bound's slot",
+            "text": "at Finish every on-shift slot between bound and end (deadline and end for ALAP) has no free tick; idle lead-in only in the bound's slot; MC_Jit universe (3 072 forward projects with one backward anchor: which predecessors are pulled back, SchedCore.ExpFwd) traced and judged; jit profile; gates that wait for whole containers; deadlines on nested containers",
             "note": TRACE_NOTE},
     "C10": {"engine": "E1 sched-trace", "design_ref": "DESIGN.md 5/C10",
             "technique": "TLA+ trace validation: container predicate P10 at every RollUp and on the final state; MC_Tree universe (nested containers, inherited edges, edges on containers) model-checked and every project traced",
@@ -86,7 +86,7 @@ CLAIMS.update({
             "note": REL_NOTE},
     "C15": {"engine": "E5 relate", "design_ref": "DESIGN.md 5/C15",
             "technique": "one abstract project, nine spellings; every spelling trace-validated by TLC; Relate.tla obligation: identical events and dates",
-            "text": "renaming (awkward identifiers), relative/absolute paths, precedes, shift reference vs inline hours, three comment styles, macros with/without argument, all combined",
+            "text": "renaming (awkward identifiers), relative/absolute paths, precedes, shift reference vs inline hours, three comment styles, macros with/without argument, all combined; comments that quote macro definitions / calls / an old project header; identifiers that begin with day names",
             "note": REL_NOTE},
     "C16": {"engine": "E5 relate", "design_ref": "DESIGN.md 5/C16",
             "technique": "per-scenario sub-traces validated by TLC against the spec instance of the effective project; Relate.tla obligation scenario i == single-scenario rendering of its effective attributes; Attr.tla: TLC enumerates every set of <= 2 (thorough 3) effort / start lines over a task tree x scenario tree, the resolution of the spec is compared with the real model builder for each (spec -> code), invariant OnlyThatScenario",
@@ -101,7 +101,7 @@ CLAIMS.update({
 CLAIMS.update({
     "C11": {"engine": "E6 outcome", "design_ref": "DESIGN.md 5/C11", "category": "model_checking",
             "technique": "TLC: Sched.tla over a universe with cycles / unreachable bounds / dead resources (Inv11, <>Terminated under WF, step bound); code side: model-driven fault enumeration classified by Outcome.tla + TraceSched C11 flags",
-            "text": "spec: every behaviour of Sched terminates within |tasks|*(N+3)+c steps leaving every leaf scheduled in the horizon or unscheduled; code: infeasible grammatical projects and corrupted texts must end as Reject (no schedule event) or Schedule (within a bound proportional to tasks x horizon slots, every leaf scheduled in horizon or warned), never crash / hang",
+            "text": "spec: every behaviour of Sched terminates within |tasks|*(N+3)+c steps leaving every leaf scheduled in the horizon or unscheduled; code: infeasible grammatical projects and corrupted texts must end as Reject (no schedule event) or Schedule (within a bound proportional to tasks x horizon slots, every leaf scheduled in horizon or warned), never crash / hang; odd_inputs: about 45 texts that combine statements as no fixture does (several allocate lines, scenario-specific duration, undefined macros, header units, astronomic values, ids defined twice -> must be rejected); chains of 120 / 240 tasks in both directions",
             "note": "trusted: TLC, runner alarm (SIGALRM) for hangs; bound is a wall-clock budget 20 s + 50 us x tasks x slots, capped by the tooling at 90 s / 400 s; declared horizons over 10 years are not generated; relative bound: 24 statement kinds written k and 2k times, the larger may cost 8 x the smaller"},
     "C12": {"engine": "E7 session", "design_ref": "DESIGN.md 5/C12",
             "technique": "TLC enumerates every API call history of Session.tla; each is replayed in one shared interpreter; observations compared with fresh-process observations by Relate.tla",
@@ -116,11 +116,11 @@ CLAIMS.update({
             "note": "trusted: TLC, CPython strftime/strptime (string rendering is compared by the harness: rendered_ok), csv/json modules"},
     "C19": {"engine": "E9 cli", "design_ref": "DESIGN.md 5/C19",
             "technique": "Cli.tla state machine model-checked (ExitContract, NoTrace, <>AllDone); every terminal state replayed against the real plan entry point as a subprocess",
-            "text": "all 388 situations input class (missing, directory, empty, blank, syntax, model, not UTF-8, CRLF, partially schedulable, unreadable, file name with a line break / undecodable bytes, ok) and diagnostics channel (stderr writable / on a full device) x channel x format x own reports (incl. names that escape the output directory, refused names, sub-directories) x output target (stdout, new file, existing file, --force, missing directory, reader gone); exit status, what stdout is (auto report with SHA-256 report_id / nothing), stderr, leftovers; same rows across channels and own-report variants, same bytes across channels",
+            "text": "all 388 situations input class (missing, directory, empty, blank, syntax, model, not UTF-8, CRLF, partially schedulable, unreadable, file name with a line break / undecodable bytes, ok) and diagnostics channel (stderr writable / on a full device) x channel x format x own reports (incl. names that escape the output directory, refused names, sub-directories) x output target (stdout, new file, existing file, --force, missing directory, reader gone); exit status, what stdout is (auto report with SHA-256 report_id / nothing), stderr, leftovers; same rows across channels and own-report variants, same bytes across channels; encoding environments (PYTHONIOENCODING=latin-1, LC_ALL=C), an input with 1 200 tasks, blank files, reports with refused names",
             "note": "trusted: TLC, subprocess / OS; entry point invoked as python -m scriptplan.cli.plan from the scratch copy"},
     "C20": {"engine": "E9 cli", "design_ref": "DESIGN.md 5/C20",
             "technique": "Cli.tla with 3 processes: all interleavings at file-operation granularity (NoTrace, Isolation; shared-name variant must fail); real concurrent rounds compared with solitary runs; strace file-operation logs checked by FsTrace.tla",
-            "text": "N = 8..128 real processes in one cwd and TMPDIR on same / different / failing inputs: byte-identical stdout, equal exit, nothing left; path ownership and creation order from strace logs; outside faults as actions of the model (Interrupt: Ctrl-C once the run is under way; WriteFail: a temp copy that cannot be written) replayed alone and among other processes",
+            "text": "N = 8..128 real processes in one cwd and TMPDIR on same / different / failing inputs: byte-identical stdout, equal exit, nothing left; path ownership and creation order from strace logs; outside faults as actions of the model (Interrupt: Ctrl-C once the run is under way; WriteFail: a temp copy that cannot be written) replayed alone and among other processes; SIGTERM / SIGHUP, a report that cannot be written into the output directory, a failing final --output write (no truncated file)",
             "note": "trusted: TLC, strace, the OS scheduler for interleavings of real processes (not controlled); the exhaustive interleaving argument is on the model"},
 })
 
